@@ -68,4 +68,24 @@ CHECKS = {
         trusted_base=TB,
         assumptions=[],
     ),
+    "C20": dict(
+        packs=["c20"], level="other",
+        explanation="R20.1 the 12 ColorMapping tables are extracted completely from the MIR switch tables (constant patterns are compiled to switches on evaluated values) and checked to be mutually inverse, injective, '?' only outside the table and to name the documented colours; gray radix/scale pairing; ' ' <-> None. "
+                    "R20.2 complete decision table of draw_pixel over (inside, allow_oob, allow_overdraw, occupied) compared with the specification on all 16 valuations. R20.3 one cell index formula for get/set, affected_area min/max pairing, diff table.",
+        claim="Decides the character tables and the panic/store decision table of draw_pixel exhaustively, plus structural pairing of the area/diff/index code; histories as such follow from the single store site but are not enumerated.",
+        note="Necessary conditions plus exhaustive finite tables; trusted: rustc's lowering of constant patterns, decision extraction on acyclic CFGs.",
+        technique="decision-table extraction from MIR switch tables + origin-tree comparison",
+        trusted_base=TB,
+        assumptions=[],
+    ),
+    "C03": dict(
+        packs=["c03"], level="other",
+        explanation="Wiring rules over the MIR of the four adapters, their constructors, the pixel-translating iterator and the three DrawTarget default methods: R03.1 every geometric argument reaching Clipped's parent is sanitised (filter by clip_area.contains, intersection, or equality with its intersection; the re-cut path builds Cropped::new(colors, area.size, intersection.translate(-area.top_left))), "
+                    "R03.2 single constructors that confine the area once, R03.3 one shift with opposite sign for the reported box, R03.4 colours only through Into, R03.5 pass-through of Cropped, R03.6 trait defaults keep their geometry and every fill_contiguous in the library pairs the caller's colour stream with the caller's area.",
+        claim="Decides the structural exactness of adapters and defaults (what is forwarded, shifted, clipped, converted); the skip arithmetic of the cropping colour iterator and deep nestings are not decided.",
+        note="Necessary conditions; idioms other than the enumerated ones are reported as violations (fail closed).",
+        technique="origin-tree wiring comparison + guard (dominance) extraction over MIR",
+        trusted_base=TB,
+        assumptions=[],
+    ),
 }
